@@ -402,6 +402,64 @@ func packetScenario(s spec) *engine.Scenario {
 // twoReaders: two threads read from ONE packet handle at the same time (a net.PacketConn may be
 // used like that) while two datagrams of different lengths arrive from two senders: each read
 // returns one whole datagram together with its own sender, each datagram is returned once.
+// shortBuffer: a read with a buffer shorter than the datagram gets the first bytes and reports
+// that many (what a UDP socket does), through a handle exactly as on the socket itself.
+func shortBuffer() *engine.Scenario {
+	var ns []int
+	var datas []string
+	var errs []string
+	sc := &engine.Scenario{Name: "packet-short-buffer"}
+	sc.Body = func() {
+		ns, datas, errs = nil, nil, nil
+		vnet.Reset()
+		m := service.NewListenerManager()
+		pc, err := m.ListenPacket(addr)
+		if err != nil {
+			panic(err)
+		}
+		pc2, err := m.ListenPacket(addr)
+		if err != nil {
+			panic(err)
+		}
+		rd := vrt.Spawn("reader", func() {
+			for _, size := range []int{2, 8, 1} {
+				buf := make([]byte, size, 64)
+				n, _, err := pc.ReadFrom(buf)
+				if err != nil {
+					errs = append(errs, err.Error())
+					return
+				}
+				ns = append(ns, n)
+				if n <= size {
+					datas = append(datas, fmt.Sprint(buf[:n]))
+				}
+			}
+		})
+		s1, _ := vnet.EnvListenUDP(world.UDPAddr("203.0.113.7:5001"))
+		snd := vrt.Spawn("sender", func() {
+			s1.WriteTo([]byte{7, 7, 7, 7, 7}, world.UDPAddr(addr))
+			s1.WriteTo([]byte{8, 8, 8}, world.UDPAddr(addr))
+			s1.WriteTo([]byte{9, 9}, world.UDPAddr(addr))
+		})
+		vrt.Join(rd, snd)
+		pc.Close()
+		pc2.Close()
+		vrt.WaitIdle()
+	}
+	sc.Check = func(x *vrt.Exec) (string, bool, []*engine.Finding) {
+		fs := hk.Generic(x, hk.Opts{})
+		if len(fs) == 0 {
+			if len(errs) > 0 {
+				fs = append(fs, &engine.Finding{Sig: "read-error{short-buffer}", Msg: fmt.Sprint(errs)})
+			} else if fmt.Sprint(ns) != "[2 3 1]" || fmt.Sprint(datas) != "[[7 7] [8 8 8] [9]]" {
+				fs = append(fs, &engine.Finding{Sig: "datagram-mangled{short-buffer}", Msg: fmt.Sprintf("reads with buffers of 2, 8 and 1 bytes for datagrams of 5, 3 and 2 bytes returned lengths %v and data %v, want [2 3 1] and [[7 7] [8 8 8] [9]]", ns, datas)})
+			}
+		}
+		return fmt.Sprint(ns, datas, errs), true, fs
+	}
+	return sc
+}
+
 func twoReaders() *engine.Scenario {
 	type got struct{ data, from string }
 	var reads []got
@@ -503,7 +561,7 @@ func scenarios(tier string) []*engine.Scenario {
 			out = append(out, streamScenario(s))
 		}
 	}
-	out = append(out, twoReaders())
+	out = append(out, twoReaders(), shortBuffer())
 	return out
 }
 
